@@ -64,6 +64,13 @@ type EvoScenario struct {
 	restoring bool
 	// coarseFitness (C17): the deterministic fitness function takes five values only
 	coarseFitness bool
+	// signedFitness (C17): the deterministic fitness function is negative for most organisms (an error measure with the sign
+	// turned, as in "0.1 - |error|")
+	signedFitness bool
+	// executor is the executor object of the run (created by runScenario unless the caller hands one over)
+	executor genetics.PopulationEpochExecutor
+	// hugePopulation (C17): thousands of organisms
+	hugePopulation bool
 	modular       bool // a modular start genome with crossovers (C17 only)
 	// switchThreshold: the copy of the options that takes over at SwitchOptsAt has another compatibility threshold as well (C08)
 	switchThreshold bool
@@ -259,12 +266,15 @@ func runScenario(c *Ctx, sc *EvoScenario, mon EvoMonitor) {
 		}
 	}
 	mon.Constructed(c, sc, pop)
-	var ex genetics.PopulationEpochExecutor
-	if sc.Parallel {
-		ex = &genetics.ParallelPopulationEpochExecutor{}
-	} else {
-		ex = &genetics.SequentialPopulationEpochExecutor{}
+	// (a scenario copied from one that has been run takes over its executor object: executors may serve one run after another)
+	if sc.executor == nil {
+		if sc.Parallel {
+			sc.executor = &genetics.ParallelPopulationEpochExecutor{}
+		} else {
+			sc.executor = &genetics.SequentialPopulationEpochExecutor{}
+		}
 	}
+	ex := sc.executor
 	ctx := neat.NewContext(context.Background(), sc.Opts)
 	if sc.ownContext {
 		ctx = sc.Opts.NeatContext()
